@@ -1,6 +1,7 @@
 mod common;
 mod c03;
 mod c06;
+mod c12;
 mod c13;
 mod c15;
 mod c16;
@@ -20,6 +21,7 @@ fn registry(id: &str) -> Option<(RunFn, ReplayFn)> {
     match id {
         "C03" => Some((c03::run, c03::replay)),
         "C06" => Some((c06::run, c06::replay)),
+        "C12" => Some((c12::run, c12::replay)),
         "C13" => Some((c13::run, c13::replay)),
         "C15" => Some((c15::run, c15::replay)),
         "C16" => Some((c16::run, c16::replay)),
